@@ -4,7 +4,7 @@ from .lcommon import *
 def run_check(tier, seed, replay=None):
     quick = tier == "quick"
     return loader_check("C05", tier, seed, replay, CODE_LOADER | CODE_PANIC, "MC_Loader_%s.cfg" % tier,
-        suites=[("model", "classes", ["--reps", "1" if quick else "2"], True),
+        suites=[("model", "classes", ["--reps", "1"], True),
                 ("sweep", "sweep", [], False),
                 ("random", "random", ["--n", "400" if quick else "6000"], False)],
         required_outcomes=["ok", "err:NestedFunction", "err:UnclosedFunction", "err:MismatchedFunctionEnd", "err:DetachedFunctionParameter",
